@@ -504,7 +504,6 @@ func propLinearizable(c *Case) {
 	// per-slot partitions
 	parts := make([][]porcupine.Operation, nslots)
 
-
 	for _, op := range history {
 		s := op.Input.(lzIn).slot
 		parts[s] = append(parts[s], op)
